@@ -335,9 +335,30 @@ def script_of(name, args):
     return f"{name}({', '.join(parts)})"
 
 
+def max_arity():
+    """name -> registered maximum parameter count (variadic: 99), from the regenerated table"""
+    p = os.path.join(COQ, 'Gen', 'GenBuiltins.v')
+    out = {}
+    for m in re.finditer(r'(GPoly (\d+) (\d+)|GVariadic|GNone), \w+\)\s+\(\* (\w+) :', open(p).read()):
+        out[m.group(4)] = 99 if m.group(1) == 'GVariadic' else 0 if m.group(1) == 'GNone' else int(m.group(2)) + int(m.group(3))
+    return out
+
+
+# systematic triples: a subject of every kind (non-empty, non-ASCII, nested) x two arguments from the extremes an index, count, component or text can take
+C09_SUBJECTS = [arr(num(1.0), num(2.0), num(3.0)), arr(), s("abc"), s("äb日"), s(""), num(2.0), num(19000.5), b(True), arr(s("a"), arr())]
+C09_EXTREMES = [num(x) for x in [0.0, 1.0, 2.0, 3.0, -1.0, 0.5, 12.0, 2.0**31, -2.0**31, 2.0**32, 2.0**53, 2.0**63, 2.0**64, 1e300, -1e300, INF, -INF, NAN]] + [s("b"), s(""), arr(num(1.0))]
+
+
 def gen_c09(tier, R, off):
     names = registered_names()
     out = []
+    ar = max_arity()
+    for n in names:
+        if 3 <= ar.get(n, 0) < 99:
+            for a in C09_SUBJECTS + (C09_EXTREMES[:6] if n.startswith('encode') or n == 'between' else []):
+                for c in C09_EXTREMES:
+                    for d in C09_EXTREMES:
+                        out.append(bi(off, n, [a, c, d]))
     pool = C09_POOL
     small = POOL[::5] + C09_EXTRA[::2]
     for n in names:
@@ -382,4 +403,44 @@ def gen_c14(tier, R):
             out.append(bi(1, n, [a]))
         for _ in range(40 if tier == 'quick' else 2000):
             out.append(bi(1, n, [R.choice(POOL) for _ in range(R.choice([2, 2, 3]))]))
+    out += gen_c14_neighbours(tier, R, names)
     return out
+
+
+def gen_c14_neighbours(tier, R, names):
+    """clusters of NEARLY identical arguments (same second / minute / day but different milliseconds, adjacent doubles, texts differing in one character or in
+    letter case, arrays differing in one element): a result remembered under too coarse a key, or any other dependence on the call history, shows when the
+    members of a cluster are called in different orders (C14.post runs them in a different order in every fresh process)"""
+    out = []
+    bases = [0.5, 19000.5, -3.25, 0.0] + ([R.uniform(-700000, 2900000) for _ in range(40)] if tier == 'thorough' else [R.uniform(-700000, 2900000) for _ in range(2)])
+    steps = [0, 1, 250, 750, 999, 1000, 59999, 3599999]
+    nums = []
+    for x in bases:
+        nums.append([num(x + k / 86400000.0) for k in steps])
+    nums.append([num(x) for x in (1.0, 1.0000000000000002, 0.9999999999999999, 1.5, 1.4999999999999998, 2.5, -1.5)])
+    texts = [[s(t) for t in ("abc", "abd", "ABC", "abc ", " abc", "abcc", "äbc")], [s(t) for t in ("10", "10.0", "1e1", " 10", "9")]]
+    arrs = [[arr(num(1.0), num(2.0), num(3.0)), arr(num(1.0), num(2.0), num(4.0)), arr(num(1.0), s("2"), num(3.0)), arr(num(3.0), num(2.0), num(1.0)), arr(num(1.0), num(2.0))]]
+    fmts = [s("%H:%M:%S%.3f"), s("%Y-%m-%d %H:%M:%S"), s("%S%.f")]
+    ar = max_arity()
+    for n in names:
+        k = ar.get(n, 0)
+        if k == 0:
+            continue
+        for cl in nums + texts + arrs:
+            for a in cl:
+                if k >= 1:
+                    out.append(bi(1, n, [a]))
+                if k >= 2:
+                    out.append(bi(1, n, [a, num(1.0)]))
+                    out.append(bi(1, n, [a, cl[0]]))
+        if n in ('date_to_string', 'time_to_string'):
+            for cl in nums:
+                for f in fmts:
+                    for a in cl:
+                        out.append(bi(1, n, [f, a]))
+    C14_NEIGHBOURS.clear()
+    C14_NEIGHBOURS.update(out)
+    return out
+
+
+C14_NEIGHBOURS = set()
